@@ -148,6 +148,27 @@ func (n *Node) Start() (err error) {
 		appOpts["unsafe-skip-upgrades"] = append([]int(nil), runSkipUpgrades...) // the same on every node of the run, as operators agree on it
 	}
 	appOpts["x-crisis-skip-assert-invariants"] = n.ID%3 == 2
+	// the rest of app.toml: services an operator switches on or off for one node (metrics, API, gRPC, state-sync
+	// snapshots, event indexing). None of it may reach a transaction result. The reference replica keeps the defaults.
+	if n.ID > 0 {
+		on := func(bit int) bool { return (n.ID>>bit)&1 == 1 }
+		appOpts["telemetry.enabled"] = on(0)
+		appOpts["telemetry.service-name"] = fmt.Sprintf("node%d", n.ID)
+		appOpts["telemetry.enable-hostname-label"] = on(1)
+		appOpts["api.enable"] = on(1)
+		appOpts["api.swagger"] = on(0)
+		appOpts["grpc.enable"] = !on(1)
+		appOpts["grpc-web.enable"] = on(0)
+		appOpts["rosetta.enable"] = on(1)
+		appOpts["state-sync.snapshot-interval"] = uint64(n.ID * 100)
+		appOpts["state-sync.snapshot-keep-recent"] = uint32(n.ID)
+		appOpts["index-events"] = []string{"message.action"}[:n.ID%2]
+		appOpts["iavl-lazy-loading"] = on(1)
+		appOpts["mempool.max-txs"] = n.ID * 1000
+		appOpts["halt-height"] = uint64(0)
+		appOpts["min-retain-blocks"] = uint64(0)
+		appOpts["app-db-backend"] = []string{"", "goleveldb", "memdb"}[n.ID%3]
+	}
 	n.App = app.New(simLogger{n}, n.DB, nil, true, appOpts, n.baseappOpts()...)
 	n.constructing = false
 	n.Up = true
